@@ -59,9 +59,13 @@ def wh_check(pid, tier, seed, t0):
     nontrivial = set()
     corners = Counter()
     steps_total = 0
-    for idx, (ic, orc) in enumerate(zip(eng["impl"], eng["oracle"])):
+    # traces are matched by case number, not by position: a shard whose harness process died has fewer cases
+    model_by_id = {mc_["id"]: mc_ for mc_ in eng["model"]}
+    impl_by_id = {ic_["id"]: ic_ for ic_ in eng["impl"]}
+    for ic, orc in zip(eng["impl"], eng["oracle"]):
+        idx = ic["id"]
         steps_total += len(ic["steps"])
-        mc = eng["model"][idx] if idx < len(eng["model"]) else {"steps": []}
+        mc = model_by_id.get(idx, {"steps": []})
         d = wh.first_divergence(ic, mc, views, with_ret, with_ev, opf)
         if d is not None:
             diverged.append((idx, d))
@@ -99,8 +103,8 @@ def wh_check(pid, tier, seed, t0):
             pass
     n_impl = len(eng["impl"])
     incomplete = n_impl < len(eng["cases"]) or any(
-        len(ic["steps"]) < len([l for l in eng["cases"][i] if not l.startswith("%")])
-        for i, ic in enumerate(eng["impl"]) if i < len(eng["cases"]))
+        len(ic["steps"]) < len([l for l in eng["cases"][ic["id"]] if not l.startswith("%")])
+        for ic in eng["impl"] if ic["id"] < len(eng["cases"]))
     rc = 0
     replay_path = None
     if viol:
@@ -126,9 +130,9 @@ def wh_check(pid, tier, seed, t0):
             idx, d = diverged[0]
             what.append({"correspondence": "model vs implementation trace, views=%s" % views, "case_index": idx,
                          "step": d, "ops": eng["cases"][idx][:d + 2],
-                         "impl": eng["impl"][idx]["steps"][d]["raw"] if d < len(eng["impl"][idx]["steps"]) else None,
-                         "model": eng["model"][idx]["steps"][d]["raw"]
-                         if idx < len(eng["model"]) and d < len(eng["model"][idx]["steps"]) else None})
+                         "impl": impl_by_id[idx]["steps"][d]["raw"] if d < len(impl_by_id[idx]["steps"]) else None,
+                         "model": model_by_id[idx]["steps"][d]["raw"]
+                         if idx in model_by_id and d < len(model_by_id[idx]["steps"]) else None})
         if crashed or incomplete:
             what.append({"harness": "implementation run crashed or produced an incomplete trace",
                          "stderr": [s["err"] for s in crashed][:2]})
@@ -163,6 +167,11 @@ def wh_check(pid, tier, seed, t0):
     return rc
 
 
+def _kind(m):
+    import re
+    return re.sub(r"[0-9]+", "#", m or "")[:48]
+
+
 def shrink_wh(ops, pid, msg, budget=120):
     """Delta-debug the op list against the implementation-side oracle for `pid`."""
     import wh
@@ -175,7 +184,9 @@ def shrink_wh(ops, pid, msg, budget=120):
         impl = wh.parse_trace(sh[0]["impl"])
         if not impl:
             return False
-        return any(p in (pid, "*") for (_, p, _) in wh.safe_oracle_case(impl[0])["fails"])
+        # the same kind of failure (message with the numbers blanked, first 48 characters), so that the history is not
+        # shrunk into a different failure (e.g. an ill-formed history on which the harness itself panics)
+        return any(p in (pid, "*") and _kind(m_) == _kind(msg) for (_, p, m_) in wh.safe_oracle_case(impl[0])["fails"])
 
     cur = list(ops)
     try:
